@@ -313,5 +313,7 @@ RULE = ('random multi-sector Gaussian-integer wavefunctions (all symmetry modes)
         'Bravyi-Kitaev codes, isometry + round trip; random sparse qubit vectors imported with thresholds equal '
         'to / just below / just above amplitude magnitudes; JW intertwining of sector-changing strings on '
         'spin-broken states. non-trivial: >= 2 exported amplitudes with a negative component / >= 2 sectors')
-NOT_PROVED = ['export_intertwines (reordering isomorphism between the two mode orderings) is not yet a Coq theorem; '
-              'the sign is DEFINED through the proved-CAR ladder operators and tied by correspondence']
+NOT_PROVED = ['injectivity of the index map and the amplitude round trip are proved for the Jordan-Wigner code; for a general '
+              'invertible linear code (parity, Bravyi-Kitaev, ...) they are tied by correspondence only (no GF(2) matrix '
+              'inverse in the model); the intertwining theorems are per ladder operator at determinant level (strings and '
+              'linear combinations follow by Fock.v linearity, not restated here)']
